@@ -1146,8 +1146,26 @@ def mc_optobj(ctx):
         run_mc_text(ctx, "MCOptObj", mcoptobj_cfg(4, False, b), "broken twin optobj:" + b, workers=4, expect_violation=True)
 
 
+def regress_batch(family, env):
+    """scripts of earlier false alarms and misses (regress/<family>/*.ndjson, replay-file format), re-judged by every run with the same
+    environment of the trace specification"""
+    d = os.path.join(vbuild.VERIF, "regress", family)
+    cmds = []
+    for f in sorted(os.listdir(d)) if os.path.isdir(d) else []:
+        lines = [json.loads(l) for l in open(os.path.join(d, f)) if l.strip()]
+        if lines and lines[0].get("op") == "note":
+            if lines[0].get("env", {}) != env:
+                continue
+            lines = lines[1:]
+        if lines and lines[0].get("op") != "reset":
+            lines = [{"op": "reset"}] + lines
+        cmds.extend(lines)
+    return [cmds] if cmds else []
+
+
 def opt_finish(ctx, batches, env, rule, props, exe=None, level="model_checking", crash_prop=None):
     exe = exe or vbuild.opt_replay()
+    batches = list(batches) + regress_batch("opt", env)
     ctx.family, ctx.tracespec, ctx.env_flags = "opt", "TraceOpt", env
     ctx.samples = ctx.samples or [[c for c in b if c.get("op") in ("opt_new", "set_flags", "evaluate")][:3] for b in batches[:2]]
     replay_and_validate(ctx, exe, batches, "TraceOpt", env, crash_prop=crash_prop)
